@@ -598,6 +598,13 @@ def invalid_inputs(mod, kessoku):
         open(os.path.join(d, p, "a.go"), "w").write('package %s\n\nimport "github.com/google/wire"\n\ntype T struct{}\n\nfunc NewT() *T { return &T{} }\n\nvar S%s = wire.NewSet(NewT)\n' % (p, p))
     rc, o, e = vlib.run([kessoku, "migrate", "-o", "kessoku.go", "./p1", "./p2"], cwd=d, env=env, timeout=300)
     recs.append(dict(kind="packages_mixed", rc=rc, wrote=os.path.exists(os.path.join(d, "kessoku.go")), stderr=e[-300:]))
+    # packages mixed, both called main (two commands below ./cmd)
+    d = os.path.join(mod, "bad_mixed_main")
+    for p in ("a", "b"):
+        os.makedirs(os.path.join(d, "cmd", p))
+        open(os.path.join(d, "cmd", p, "w.go"), "w").write('//go:build wireinject\n\npackage main\n\nimport "github.com/google/wire"\n\ntype T%s struct{}\n\nfunc NewT%s() *T%s { return &T%s{} }\n\nfunc Init%s() *T%s {\n\twire.Build(NewT%s)\n\treturn nil\n}\n' % ((p,) * 7))
+    rc, o, e = vlib.run([kessoku, "migrate", "-o", "kessoku.go", "./cmd/..."], cwd=d, env=env, timeout=300)
+    recs.append(dict(kind="packages_mixed_same_name", rc=rc, wrote=os.path.exists(os.path.join(d, "kessoku.go")), stderr=e[-300:]))
     return recs
 
 
@@ -803,6 +810,20 @@ DIRECTED = {
         "t.go": 'package main\n\nimport (\n\tv1 "vscratch/NAME/api1"\n\tsecond "vscratch/NAME/api2"\n)\n\ntype App struct {\n\tI *second.Impl\n\tU *v1.User\n}\n',
         "main.go": 'package main\n\nfunc main() { a := InitApp(); println(a.U.N + a.I.S) }\n',
         "wire.go": '//go:build wireinject\n\npackage main\n\nimport (\n\t"github.com/google/wire"\n\n\tv1 "vscratch/NAME/api1"\n\tsecond "vscratch/NAME/api2"\n)\n\nfunc InitApp() *App {\n\twire.Build(second.NewImpl, v1.NewUser, wire.Struct(new(App), "*"))\n\treturn nil\n}\n'},
+    # struct fields whose lower-camel names are Go keywords (Type, Default, Range ...): the constructor migrate writes must
+    # not use them as parameter names (repaired)
+    "struct_field_keyword_names": {
+        "t.go": 'package main\n\ntype Kind string\ntype Fallback int\ntype Span int\n\ntype Config struct {\n\tType    Kind\n\tDefault Fallback\n\tRange   Span\n}\n\nfunc ProvideKind() Kind         { return "k" }\nfunc ProvideFallback() Fallback { return 7 }\nfunc ProvideSpan() Span         { return 9 }\n',
+        "main.go": 'package main\n\nfunc main() { c := InitConfig(); println(string(c.Type), int(c.Default), int(c.Range)) }\n',
+        "wire.go": '//go:build wireinject\n\npackage main\n\nimport "github.com/google/wire"\n\nfunc InitConfig() *Config {\n\twire.Build(ProvideKind, ProvideFallback, ProvideSpan, wire.Struct(new(Config), "*"))\n\treturn nil\n}\n'},
+    # a pattern spanning several packages (./...): the package that sorts first has no wire file; the output belongs to the
+    # wire package and must spell its types relative to it (repaired: the converter was built for the first loaded package)
+    "pattern_first_package_without_wire": {
+        "__sub__": "w", "__args__": ["-o", "w/kessoku.go", "./..."],
+        "aaa/a.go": 'package aaa\n\ntype Helper struct{ S string }\n\nfunc NewHelper() *Helper { return &Helper{S: "h"} }\n',
+        "w/t.go": 'package main\n\nimport "vscratch/NAME/aaa"\n\ntype Local struct{ H *aaa.Helper }\n',
+        "w/main.go": 'package main\n\nfunc main() { println(InitLocal().H.S) }\n',
+        "w/wire.go": '//go:build wireinject\n\npackage main\n\nimport (\n\t"github.com/google/wire"\n\n\t"vscratch/NAME/aaa"\n)\n\nfunc InitLocal() *Local {\n\twire.Build(aaa.NewHelper, wire.Struct(new(Local), "*"))\n\treturn nil\n}\n'},
     "interface_value_nested_selector": {
         "streams/streams.go": 'package streams\n\nimport "bytes"\n\nvar Std = struct{ Out *bytes.Buffer }{Out: bytes.NewBufferString("buf")}\n',
         "t.go": 'package main\n\nimport "fmt"\n\ntype App struct{ S string }\n\nfunc NewApp(w fmt.Stringer) *App { return &App{S: w.String()} }\n',
@@ -823,13 +844,17 @@ def directed_runs(key="WD-x"):
         name = "d" + cid
         rec = dict(name=cid, problems=[])
         recs.append(rec)
+        sub = files.get("__sub__", "")
+        margs = files.get("__args__", ["-o", "kessoku.go", "./"])
+        files = {k: v for k, v in files.items() if not k.startswith("__")}
         for side in ("", "_k", "_k2"):
             d = os.path.join(mod, name + side)
             for fn, txt in files.items():
                 pth = os.path.join(d, fn)
                 os.makedirs(os.path.dirname(pth), exist_ok=True)
                 open(pth, "w").write(txt.replace("NAME", name + side))
-        wdir, kdir, kdir2 = os.path.join(mod, name), os.path.join(mod, name + "_k"), os.path.join(mod, name + "_k2")
+        root, root2 = os.path.join(mod, name + "_k"), os.path.join(mod, name + "_k2")
+        wdir, kdir, kdir2 = os.path.join(mod, name, sub), os.path.join(root, sub), os.path.join(root2, sub)
         rc, o, e = vlib.run([wire, "gen", "."], cwd=wdir, env=env, timeout=300)
         if rc != 0:
             rec["problems"].append("HARNESS: wire rejects the directed configuration: " + (o + e)[-300:])
@@ -838,23 +863,23 @@ def directed_runs(key="WD-x"):
         if rcw != 0:
             rec["problems"].append("HARNESS: wire side does not run: " + ew[-300:])
             continue
-        rc, o, e = vlib.run([kessoku, "migrate", "-o", "kessoku.go", "./"], cwd=kdir, env=env, timeout=300)
+        rc, o, e = vlib.run([kessoku, "migrate"] + margs, cwd=root, env=env, timeout=300)
         if rc != 0 or not os.path.exists(os.path.join(kdir, "kessoku.go")):
             rec["problems"].append("wire accepts the configuration but migrate failed (rc=%d): %s" % (rc, e[-300:]))
             continue
         text1 = open(os.path.join(kdir, "kessoku.go")).read()
         rec["kessoku_go"] = text1[:4000]
-        rc, o, e = vlib.run([kessoku, "migrate", "-o", "kessoku.go", "./"], cwd=kdir2, env=dict(env, GOMAXPROCS="1"), timeout=300)
+        rc, o, e = vlib.run([kessoku, "migrate"] + margs, cwd=root2, env=dict(env, GOMAXPROCS="1"), timeout=300)
         if rc != 0 or open(os.path.join(kdir2, "kessoku.go")).read().replace(name + "_k2", name + "_k") != text1:
             rec["problems"].append("C14: migrate output differs between two runs")
         # the output path already holds a longer (valid, unrelated) file: it must be replaced, not overwritten in place
         stale = "package main\n\n" + "".join("var staleLeftover%d = %d\n" % (q, q) for q in range(len(text1) // 20 + 40))
         with open(os.path.join(kdir2, "kessoku.go"), "w") as f:
             f.write(stale)
-        rc, o, e = vlib.run([kessoku, "migrate", "-o", "kessoku.go", "./"], cwd=kdir2, env=env, timeout=300)
+        rc, o, e = vlib.run([kessoku, "migrate"] + margs, cwd=root2, env=env, timeout=300)
         if rc != 0 or open(os.path.join(kdir2, "kessoku.go")).read().replace(name + "_k2", name + "_k") != text1:
             rec["problems"].append("C14: migrate over a longer previous output file does not produce the same bytes as a fresh run")
-        shutil.rmtree(kdir2, ignore_errors=True)
+        shutil.rmtree(root2, ignore_errors=True)
         os.remove(os.path.join(kdir, "wire.go"))
         rc, o, e = vlib.run(["gofmt", "-l", "kessoku.go"], cwd=kdir, env=env, timeout=60)
         if rc != 0 or o.strip():
